@@ -75,6 +75,8 @@ pub fn rel(from_dir: &str, to: &str) -> String {
 
 pub fn static_files() -> Files {
     let mut files = Files::new();
+    // larger than a pipe buffer (64 KiB): a command printing it needs its stdout drained while it runs
+    files.insert("inc_big.txt".into(), (0..2500).map(|i| format!("big line {i:05} ........................\n")).collect::<String>().into_bytes());
     for d in DIRS {
         for (n, c) in STATIC {
             let p = if d.is_empty() { n.to_string() } else { format!("{d}/{n}") };
@@ -202,6 +204,8 @@ pub fn gen_source(r: &mut StdRng, o: &GenOpts, dir: &str, deps: &[String], is_de
                     ls.push(head("run", "pwd -P"));
                 } else if t < 80 {
                     ls.push(head("run", "echo \"$TXTPP_FILE\""));
+                } else if t < 82 {
+                    ls.push(head("run", &format!("cat {}", rel(dir, "inc_big.txt"))));
                 } else if t < 88 {
                     ls.push(head("run", "cat inc_nonl.txt"));
                 } else if t < 94 || !err(r) {
